@@ -49,16 +49,17 @@ class Forall:
 
 
 def prove_forall(env, path, clause, goal, facts, props, extra_instances=()):
-    """skolemise `goal`, instantiate every fact at the skolem index (plus extra_instances(q) -> iterable of index terms)"""
+    """skolemise `goal` with a fresh index q and prove
+          (lo <= q < hi) and (instances of every fact at q and at extra_instances(q))  ==>  body(q)
+    as ONE implication: nothing is added to the path condition (an empty range must not make the path vacuous)."""
     path.fresh += 1
     q = SymInt(z3.Int("q!%d" % path.fresh))
-    path.assume(goal.lo <= q)
-    path.assume(q < goal.hi)
+    hyps = [goal.lo <= q, q < goal.hi]
     for f in facts:
-        path.assume(f.instance(q))
-        for t in extra_instances(q) if extra_instances else ():
-            path.assume(f.instance(t))
-    return env.ensure(clause, goal.body(q), props)
+        hyps.append(f.instance(q))
+        for t in (extra_instances(q) if extra_instances else ()):
+            hyps.append(f.instance(t))
+    return env.ensure(clause, sym.Implies(And(*hyps), goal.body(q)), props)
 
 
 class LoopCtx:
@@ -185,7 +186,13 @@ class Verifier:
                 interp.assign(node.target, elem(i), frame)
                 r = interp.exec_block(node.body, frame)
                 if r is not None:
-                    raise EngineError("break/return inside a cut loop")
+                    if r[0] == "return":
+                        # the body leaves the function at an arbitrary iteration i: the invariant at i (assumed above) and
+                        # its quantified facts carry over to the caller's post-condition; nothing to re-establish
+                        self.facts.extend(facts)
+                        self.exit_index = i
+                        return (r,)
+                    raise EngineError("break/continue inside a cut loop")
                 g2 = spec.step(ctx, i, ghost)
                 for item in spec.inv(ctx, i + 1, g2):
                     if isinstance(item, Forall):
